@@ -1,9 +1,11 @@
 package main
 
 import (
+	"encoding/hex"
 	"fmt"
 	"math/rand"
 	"sort"
+	"strconv"
 	"strings"
 )
 
@@ -27,6 +29,7 @@ type Profile struct {
 	FlushExtra, EndExtra                                    []string // templates with %F = file id
 	KeyOnlyReads                                            bool     // C19: bracket key-only ops with rmark/kreads
 	Iter, SetRoot, SnapRevert, Write, Blocks                int
+	Any                                                     int // weight of a step through the convenience API: SetAny/GetAny/DeleteAny/ExistAny (keys of every type toBa accepts), Set (random priority), Name, Stats
 	MemOnly                                                 int // percent of histories on a memory-only store
 	MaxColls                                                int
 	BigVals                                                 bool
@@ -57,6 +60,7 @@ type Gen struct {
 	keyPrio  map[string]int // (name/key) -> last priority, for NoLowerOverwrite
 	namePool []string
 	usedPrio map[int]bool
+	anyToks  []string // arguments already passed to the *Any API in this history
 }
 
 var baseNames = []string{"a", "b", "rv", "fo", "q\"uo\\te", "n<&>", "\x01ctl", "caf\xc3\xa9", "u\xe2\x80\xa8ls", ""}
@@ -225,6 +229,7 @@ func (g *Gen) history() []string {
 	g.prioCtr = 0
 	g.keyPrio = map[string]int{}
 	g.usedPrio = map[int]bool{}
+	g.anyToks = nil
 	// name pool for this history
 	g.namePool = nil
 	perm := r.Perm(len(baseNames))
@@ -637,6 +642,102 @@ func (g *Gen) history() []string {
 				default:
 					g.emit("geti %d %s %s %d", sn.sid, hn, hx(keys[r.Intn(len(keys))]), r.Intn(2))
 				}
+			}
+		}},
+		{p.Any, func() {
+			fresh := func() string {
+				switch r.Intn(7) {
+				case 0, 1:
+					return fmt.Sprintf("i:%d", []int{0, 1, -1, 7, 10, -10, 12, 100, -2147483648, 9223372036854775807}[r.Intn(10)])
+				case 2:
+					l := [][]int{{}, {1}, {12}, {1, 2}, {-1, 2}, {1, -2}, {0, 0, 0}, {10, 0}, {1, 20}}[r.Intn(9)]
+					f := make([]string, len(l))
+					for i, x := range l {
+						f[i] = strconv.Itoa(x)
+					}
+					return "l:" + strings.Join(f, ",")
+				case 3:
+					return "s:" + hex.EncodeToString([][]byte{[]byte("a"), []byte("1,2"), []byte("12"), []byte("-1"), g.key(), {}}[r.Intn(6)])
+				case 4:
+					if r.Intn(8) == 0 {
+						return "b:-"
+					}
+					return "b:" + hex.EncodeToString(g.key())
+				case 5:
+					return "B:" + hex.EncodeToString([][]byte{[]byte("1"), []byte("a"), g.key(), {}}[r.Intn(4)])
+				default:
+					return "s:" + hex.EncodeToString(g.key())
+				}
+			}
+			anyTok := func() string {
+				if len(g.anyToks) > 0 && r.Intn(10) < 8 {
+					return g.anyToks[r.Intn(len(g.anyToks))] // mostly arguments seen before, so that reads and deletes hit
+				}
+				t := fresh()
+				if len(g.anyToks) < 24 {
+					g.anyToks = append(g.anyToks, t)
+				}
+				return t
+			}
+			seedPrio := func() (int64, int32) {
+				sd := r.Int63()
+				return sd, rand.New(rand.NewSource(sd)).Int31()
+			}
+			switch x := r.Intn(100); {
+			case x < 35:
+				s := g.pickStore(r.Intn(30) > 0)
+				if s == nil {
+					return
+				}
+				sd, pr := seedPrio()
+				g.emit("seta %d %s %s %s %d %d", s.sid, hx([]byte(g.pickName(s, true))), anyTok(), anyTok(), sd, pr)
+			case x < 50:
+				s := g.pickStore(r.Intn(30) > 0)
+				if s == nil {
+					return
+				}
+				sd, pr := seedPrio()
+				g.emit("setr %d %s %s %s %d %d", s.sid, hx([]byte(g.pickName(s, true))), hx(g.key()), hx(g.val()), sd, pr)
+			case x < 68:
+				s := g.pickStore(false)
+				g.emit("geta %d %s %s", s.sid, hx([]byte(g.pickName(s, true))), anyTok())
+			case x < 78:
+				s := g.pickStore(false)
+				g.emit("exa %d %s %s", s.sid, hx([]byte(g.pickName(s, true))), anyTok())
+			case x < 90:
+				s := g.pickStore(r.Intn(30) > 0)
+				if s == nil {
+					return
+				}
+				g.emit("dela %d %s %s", s.sid, hx([]byte(g.pickName(s, true))), anyTok())
+			case x < 93:
+				s := g.pickStore(true)
+				if s == nil {
+					return
+				}
+				g.emit("name %d %s", s.sid, hx([]byte(g.pickName(s, true))))
+			case x < 95:
+				s := g.pickStore(true)
+				if s == nil {
+					return
+				}
+				nm, k := g.pickName(s, true), g.key()
+				if r.Intn(4) > 0 {
+					g.emit("set %d %s %s %s %d", s.sid, hx([]byte(nm)), hx(k), hx(g.val()), g.prio(nm, k))
+				}
+				g.emit("icopy %d %s %s", s.sid, hx([]byte(nm)), hx(k))
+			case x < 97:
+				s := g.pickStore(true)
+				if s == nil {
+					return
+				}
+				g.emit("mjson %d %s", s.sid, hx([]byte(g.pickName(s, true))))
+			default:
+				s := g.pickStore(true)
+				if s == nil {
+					return
+				}
+				g.emit("fsize %d", s.sid)
 			}
 		}},
 		{p.Chain, func() {
